@@ -173,16 +173,29 @@ class Checker:
                 del vcs[fn]
         # discharge
         items = []
+        self.deferred = []
         for fn, vc in sorted(vcs.items()):
             for o in vc.obls:
+                if 'slow' in o.tags and self.tier == 'quick':
+                    # obligations that need more than the quick timeout are decided in the thorough tier only
+                    self.deferred.append(o.name)
+                    continue
                 items.append((vc, o, vc.query(o, 1)))
 
         def run(item):
             vc, o, q = item
+            tmo = 120 if 'slow' in o.tags else self.timeout
             if o.expect == 'sat':
                 # vacuity covers: one solver, short timeout (undecided covers are reported, not failed)
                 return vc, o, smt.solve(q, wd.path, vc.fname + '##' + o.name, 5, order=('z3new',))
-            r = smt.solve(q, wd.path, vc.fname + '##' + o.name, self.timeout)
+            if vc.quant_defs:
+                # instantiate-only variant first: assumed universal clauses are used through their ground instances
+                # alone (dropping the quantified originals is sound: fewer assumptions)
+                r0 = smt.solve(vc.query(o, 1, noq=True), wd.path, vc.fname + '##noq##' + o.name, tmo, order=('z3new',))
+                if r0['status'] == 'unsat':
+                    r0['variant'] = 'instances-only'
+                    return vc, o, r0
+            r = smt.solve(q, wd.path, vc.fname + '##' + o.name, tmo)
             if r['status'] != o.expect and r['status'] in ('unknown', 'timeout') and o.expect == 'unsat':
                 q2 = vc.query(o, 2)
                 r2 = smt.solve(q2, wd.path, vc.fname + '##2##' + o.name, self.timeout)
@@ -376,6 +389,7 @@ class Checker:
                 'known_finding_obligations': [o.name for o, _ in kf_hits],
                 'failed_obligations': [o.name for _, o, _ in violations],
                 'undecided_vacuity_covers': self.undecided_covers,
+                'deferred_to_thorough_tier': self.deferred,
                 'bounded': self.bounded,
                 'integer_mode': 'mathematical Int with exact wrap-around (wrap64/wrap32) on + - *; lengths <= 2^40 assumed',
                 'extraction': 'go/ssa built from the working tree on this run; drops comments, parenthesisation, names of temporaries',
@@ -390,7 +404,7 @@ class Checker:
             json.dump(ev, f, indent=1)
 
 
-PROPERTY_BOUNDED = {'C04': 'TokenizerFamily', 'C12': 'TokenizerFamily', 'C15': 'OptionsFamily', 'C14': 'QuoteFamily', 'C16': 'SymbolFamily'}
+PROPERTY_BOUNDED = {'C02': 'ParserFamily', 'C04': 'TokenizerFamily', 'C12': 'TokenizerFamily', 'C15': 'OptionsFamily', 'C14': 'QuoteFamily', 'C16': 'SymbolFamily'}
 
 ASSUMPTIONS = [
     'A0 trusted computing base: go/ssa front end, this engine, the SMT solvers',
